@@ -278,6 +278,12 @@ def execute(case, ctx):
         d = {"what": what, "P": P, "T": T, "env": env, "scenario": sc.text(), "flavour": flavour, "stderr": stderr[-2500:]}
         if extra:
             d.update(extra)
+        if sig in ("sa-terms", "sa-table", "c4-terms", "c4-table", "gf-vs-reference") and near_merge_resolution(ref.get("eigen")):
+            # known finding D22 (known_findings.json): two levels of the model are about 1e-8 apart, the resolution with which like terms
+            # are collected; the tolerance comparator of the term lists is not transitive there and a list loses terms when it is rebuilt
+            # from a broadcast, so ranks that did not compute a part evaluate it differently
+            sig = "term-merge-near-resolution"
+            d["what"] = "[D22] " + d["what"]
         return Result("fail", classes, True, d, sig)
     if status.startswith("timeout"):
         return fail("the %d-rank run did not terminate within %.0f s (single rank: %.2f s)" % (P, timeout, t1), "hang")
@@ -356,6 +362,16 @@ def execute(case, ctx):
 
 
 FLOOR = [1e-13]
+
+
+def near_merge_resolution(eigen_answer):
+    """two eigenvalues between 2e-9 and 5e-8 apart (the library collects poles closer than 1e-8)"""
+    try:
+        e = np.sort(np.array(eigen_answer["all"], dtype=float))
+    except Exception:
+        return False
+    d = np.diff(e)
+    return bool(np.any((d >= 2e-9) & (d <= 5e-8)))
 
 
 # ---- many-rank sweep of the split container path ----------------------------------------------------------------------------------
